@@ -104,6 +104,40 @@ class _PercentFmt:
         return out + fmt[pos:]
 
 
+class _PercentFmtBytes:
+    """same for bytes formats (b"{%d+}%s%s" % (n, CRLF, data)): %s takes bytes-like operands"""
+
+    def __init__(self, fmt):
+        self.fmt = fmt
+
+    def __mod__(self, other):
+        fmt = self.fmt
+        if _re.search(rb"%(?!%|s|d)", fmt) or isinstance(other, dict):
+            return fmt.__mod__(other)
+        args = other if isinstance(other, tuple) else (other,)
+        out = b""
+        pos = 0
+        ai = 0
+        for m in _re.finditer(rb"%(%|s|d)", fmt):
+            out = out + fmt[pos:m.start()]
+            pos = m.end()
+            c = m.group(1)
+            if c == b"%":
+                out = out + b"%"
+                continue
+            if ai >= len(args):
+                raise TypeError("not enough arguments for format string")
+            a = args[ai]
+            ai += 1
+            if c == b"s":
+                out = out + a
+            else:
+                out = out + str(int(a)).encode("ascii")
+        if ai != len(args):
+            raise TypeError("not all arguments converted during bytes formatting")
+        return out + fmt[pos:]
+
+
 if _HAVE_OPS:
     class VerifModuloInterceptor(_TracingModule):
         opcodes_wanted = frozenset([_BINARY_OP])
@@ -116,8 +150,55 @@ if _HAVE_OPS:
                 if _frame_op_arg(frame) != 6:      # NB_REMAINDER
                     return
                 _fsw(frame, -2, _PercentFmt(left))
+            elif type(left) is bytes:
+                if _frame_op_arg(frame) != 6:
+                    return
+                _fsw(frame, -2, _PercentFmtBytes(left))
 
     try:
         _register_opcode_patch(VerifModuloInterceptor())
     except Exception:  # already registered in this process
         pass
+
+
+# ---------------------------------------------------------------------------------------------
+# 3. `needle in symbolic_bytes` goes to AbcString.__contains__, which realises the whole value
+#    (`... in self.data`); with a realised value the solver enumerates byte strings one by one.
+#    Replaced by a search over the symbolic byte sequence.
+try:
+    from crosshair.libimpl import builtinslib as _bl
+    _HAVE_BL = True
+except Exception:  # pragma: no cover
+    _HAVE_BL = False
+
+
+def _bytes_contains(self, other):
+    if isinstance(other, int):
+        needle = [other]
+    else:
+        with _NoTracing():
+            if isinstance(other, (bytes, bytearray)):
+                needle = list(other)
+            else:
+                needle = None
+        if needle is None:
+            needle = list(other)
+    hay = self.inner
+    n = hay.__len__()
+    m = len(needle)
+    if m == 0:
+        return True
+    i = 0
+    while i + m <= n:
+        k = 0
+        while k < m and hay[i + k] == needle[k]:
+            k += 1
+        if k == m:
+            return True
+        i += 1
+    return False
+
+
+if _HAVE_BL and not getattr(_bl.BytesLike, "_verif_patched", False):
+    _bl.BytesLike.__contains__ = _bytes_contains
+    _bl.BytesLike._verif_patched = True
